@@ -1,1 +1,228 @@
-/-! # C17 — property theorems (not built yet) -/
+import PysphVerif.Lemmas.Reorder
+/-!
+# C17 — spatial re-ordering is a pure permutation of whole particles
+
+Property theorems only (helper lemmas live in `Lemmas/Reorder.lean`).  They are
+about `Model/Reorder.lean`, which transcribes `get_spatially_ordered_indices`
+of the five traversal families (8 classes), cyarray's `c_align_array`,
+`ParticleArray.align_particles` and `NNPS.spatially_order_particles`, and is
+tied to the code by exact differential execution (`harness/c17.py`).
+
+Quantification: every assignment of particles to cells / keys / octants
+(with the range condition the geometry guarantees, stated per theorem), every
+number of particles, every particle array (any number of properties, any
+strides, any tags), every index permutation, every history of re-orderings.
+
+`spatiallyOrderOrig` is the code of the pinned tree, `spatiallyOrder` the
+repaired code (proposed_fixes/C17-reorder-align.diff).
+-/
+namespace PysphVerif.C17
+open PysphVerif.Reorder List
+
+/-! ## the ordered index list is a permutation of `0..n-1` -/
+
+/-- LinkedListNNPS / BoxSortNNPS: cells in ascending order, inside a cell
+the most recently binned particle first — whatever the cell assignment. -/
+theorem ordered_indices_eq_LinkedList (cid : Nat → Nat) (ncells n : Nat) :
+    llOrder cid ncells n =
+      (range ncells).flatMap (fun c => ((range n).filter (fun i => cid i == c)).reverse) :=
+  llOrder_eq cid ncells n
+
+/-- … a permutation of `0..n-1` exactly when every particle's cell index is
+inside the `head` array (each particle in exactly one bucket, each bucket
+visited once). -/
+theorem ordered_indices_perm_LinkedList (cid : Nat → Nat) (ncells n : Nat) :
+    llOrder cid ncells n ~ range n ↔ ∀ i, i < n → cid i < ncells := by
+  constructor
+  · intro hp i hi
+    have hmem : i ∈ llOrder cid ncells n := hp.mem_iff.mpr (by simpa using hi)
+    rw [llOrder_eq] at hmem
+    obtain ⟨c, hc, hic⟩ := mem_flatMap.mp hmem
+    simp only [llBucket, mem_reverse, mem_filter, beq_iff_eq] at hic
+    rw [hic.2]; simpa using hc
+  · exact llOrder_perm cid ncells n
+
+example : llOrder (fun i => [0, 2, 0, 1, 2].getD i 0) 3 5 = [2, 0, 3, 4, 1] := by decide
+
+/-- finding `C17:ll-coincident-lowdim` in the model: one particle in a 2D
+problem binned (by the padded z extent) into cell 13 of 9 — the list is empty. -/
+theorem ordered_indices_LinkedList_out_of_range_counterexample :
+    ¬ (llOrder (fun _ => 13) 9 1 ~ range 1) := by
+  rw [ordered_indices_perm_LinkedList]
+  intro h; exact absurd (h 0 (by omega)) (by omega)
+
+/-- ZOrderNNPS / ExtendedZOrderNNPS / StratifiedSFCNNPS: `pids` is `0..n-1`
+sorted by key — for *any* sorting routine that permutes its input
+(`std::sort`'s contract), whatever the keys. -/
+theorem ordered_indices_perm_ZOrder_any_sort (srt : List Nat → List Nat)
+    (hsrt : ∀ l, srt l ~ l) (n : Nat) : srt (range n) ~ range n := hsrt _
+
+/-- … and for the executable model (stable merge sort by key). -/
+theorem ordered_indices_perm_ZOrder (key : Nat → Nat) (n : Nat) : sortOrder key n ~ range n :=
+  sortOrder_perm key n
+
+/-- the keys are non-decreasing along the list (it *is* the spatial order) -/
+theorem ordered_indices_sorted_ZOrder (key : Nat → Nat) (n : Nat) :
+    (sortOrder key n).Pairwise (fun a b => key a ≤ key b) := sortOrder_sorted key n
+
+-- (unconditional; the driver evaluates `sort key=5,1,5,0` to `3,1,0,2` — `mergeSort` is defined by
+-- well-founded recursion and does not reduce under `decide`)
+example : (sortOrder (fun i => [5, 1, 5, 0].getD i 0) 4).length = 4 :=
+  (ordered_indices_perm_ZOrder _ 4).length_eq.trans (by simp)
+
+/-- CellIndexingNNPS: the particle id travels in the low `I` bits of the
+sorted 32-bit key; the ids read back are a permutation as long as
+`n ≤ 2^I` (`I = ⌊1 + log2 n⌋`) and `I ≤ 32` — even when the cell part
+overflows 32 bits. -/
+theorem ordered_indices_perm_CellIndexing (I : Nat) (cell : Nat → Nat) (n : Nat)
+    (hI : I ≤ 32) (hn : n ≤ 2 ^ I) : ciOrder I cell n ~ range n :=
+  ciOrder_perm I cell n hI hn
+
+-- hypotheses met by a non-trivial instance (5 particles, `I = ⌊1 + log2 5⌋ = 3`)
+example : 3 ≤ 32 ∧ 5 ≤ 2 ^ 3 := by decide
+example : ciId 3 (ciKey 3 (fun _ => 2 ^ 31) 4) = 4 := by decide
+
+/-- OctreeNNPS / CompressedOctreeNNPS: `pids` (leaves in depth-first octant
+order) is a permutation of the particles handed to the builder, for every
+octant classifier with values `< 8`, every leaf size, every stopping rule and
+every recursion depth. -/
+theorem ordered_indices_perm_Octree (leafMax : Nat) (digit : Nat → Nat → Nat)
+    (stop : List Nat → Bool) (hd : ∀ d q, digit d q < 8) (fuel n : Nat) :
+    octOrder leafMax digit stop fuel n ~ range n :=
+  octBuild_perm leafMax digit stop hd fuel [] (range n)
+
+example : octOrder 2 (fun d q => ([[0, 1], [1], [0, 0], [1]].getD q []).getD d 0)
+    (fun p => p == [1]) 5 4 = [2, 0, 1, 3] := by decide
+
+/-! ## the gather (`c_align_array`) with a stride -/
+
+variable {α : Type} [Inhabited α]
+
+/-- **rows stay together**: element `i·s+k` of the result is element
+`idx[i]·s+k` of the source, for every stride `s`, row `i` and component
+`k < s` (no hypothesis on `idx`). -/
+theorem gather_keeps_rows_together (idx : List Nat) (s : Nat) (data : List α) (i k : Nat)
+    (hi : i < data.length / s) (hk : k < s) :
+    (gather idx s data).getD (i * s + k) default = data.getD (idx.getD i i * s + k) default :=
+  gather_getD idx s data i k hi hk
+
+theorem gather_preserves_length (idx : List Nat) (s : Nat) (data : List α) :
+    (gather idx s data).length = data.length := gather_length idx s data
+
+/-- **multiset of rows preserved**: gathering through a permutation of the
+row numbers permutes the rows (each a block of `s` elements). -/
+theorem gather_perm_preserves_multiset (idx : List Nat) (s : Nat) (data : List α)
+    (hp : idx ~ range (data.length / s)) : rowsOf s (gather idx s data) ~ rowsOf s data :=
+  rowsOf_gather_perm idx s data hp
+
+example : gather [2, 0, 1] 2 [1, 2, 3, 4, 5, 6, (7 : Int)] = [5, 6, 1, 2, 3, 4, 7] := by decide
+
+/-! ## whole particles -/
+
+/-- after `spatially_order_particles` (pinned or repaired) the particles —
+each with its values in *all* properties, strided ones included — are a
+permutation of the particles before. -/
+theorem reorder_preserves_particles_orig (idx : List Nat) (pa : PA) (hwf : pa.wf = true)
+    (hp : idx ~ range pa.n) : (spatiallyOrderOrig idx pa).particles ~ pa.particles :=
+  particles_gatherAll_perm pa idx hwf hp
+
+theorem reorder_preserves_particles (idx : List Nat) (pa : PA) (hwf : pa.wf = true)
+    (hp : idx ~ range pa.n) : (spatiallyOrder idx pa).particles ~ pa.particles :=
+  particles_fixed_perm idx pa hwf hp
+
+/-- particle `i` of the re-ordered array (pinned code) is the old particle
+`idx[i]`, whole. -/
+theorem reorder_moves_whole_particles (idx : List Nat) (pa : PA) (hwf : pa.wf = true)
+    (hl : idx.length = pa.n) : (spatiallyOrderOrig idx pa).particles = idx.map pa.particle :=
+  particles_gatherAll pa idx hwf hl
+
+/-! ## real particles ahead of ghost / remote ones -/
+
+/-- the property's clause, as a statement about a re-ordering routine `f` -/
+def RealFirstAfterReorder (f : List Nat → PA → PA) : Prop :=
+  ∀ (idx : List Nat) (pa : PA), pa.wf = true → pa.realFirst = true → idx ~ range pa.n →
+    (f idx pa).realFirst = true
+
+def cexPA : PA :=
+  { props := [⟨"tag", 1, [0, 2]⟩, ⟨"A", 2, [10, 11, 20, 21]⟩], nReal := 1 }
+
+/-- **F6**: the pinned `spatially_order_particles` violates it — Local, Ghost
+re-ordered by `[1, 0]` leaves the ghost in slot 0 with `num_real_particles = 1`. -/
+theorem real_first_after_reorder_orig_counterexample : ¬ RealFirstAfterReorder spatiallyOrderOrig := by
+  intro h
+  have := h [1, 0] cexPA (by decide) (by decide) (by decide)
+  revert this
+  decide
+
+/-- what does hold for the pinned code: arrays without non-Local tags -/
+theorem real_first_after_reorder_orig_partial (idx : List Nat) (pa : PA) (hwf : pa.wf = true)
+    (hall : ∀ t ∈ pa.tags, t = localTag) (hn : pa.nReal = pa.n) (hp : idx ~ range pa.n) :
+    (spatiallyOrderOrig idx pa).realFirst = true := by
+  have hl : idx.length = pa.tags.length := by simpa [PA.n] using hp.length_eq
+  have htags : (spatiallyOrderOrig idx pa).tags = idx.map (fun i => pa.tags.getD i default) := by
+    unfold spatiallyOrderOrig
+    rw [tags_gatherAll pa idx hwf, gather_one idx pa.tags hl]
+  have hnr : (spatiallyOrderOrig idx pa).nReal = pa.n := hn
+  have hlen : (spatiallyOrderOrig idx pa).tags.length = pa.n := by
+    rw [htags, length_map, hl]; rfl
+  have hall' : ∀ t ∈ (spatiallyOrderOrig idx pa).tags, t = localTag := by
+    rw [htags]
+    intro t ht
+    obtain ⟨x, hx, rfl⟩ := mem_map.mp ht
+    have hxn : x < pa.tags.length := by simpa [PA.n] using hp.mem_iff.mp hx
+    apply hall
+    simp [getD_eq_getElem?_getD, getElem?_eq_getElem hxn]
+  unfold PA.realFirst
+  rw [hnr, n_orig idx pa hwf]
+  have h1 : take pa.n (spatiallyOrderOrig idx pa).tags = (spatiallyOrderOrig idx pa).tags :=
+    take_of_length_le (by omega)
+  have h2 : drop pa.n (spatiallyOrderOrig idx pa).tags = [] := drop_of_length_le (by omega)
+  rw [h1, h2]
+  simp only [all_nil, Bool.and_true, Nat.le_refl, decide_true, all_eq_true, beq_iff_eq]
+  exact hall'
+
+/-- **real particles first after the (repaired) re-ordering** — every array,
+every tag pattern, every index list (no hypothesis on `idx` at all). -/
+theorem real_first_after_reorder (idx : List Nat) (pa : PA) (hwf : pa.wf = true) :
+    (spatiallyOrder idx pa).realFirst = true :=
+  realFirst_align _ (wf_orig idx pa hwf)
+
+theorem real_first_after_reorder_full : RealFirstAfterReorder spatiallyOrder :=
+  fun idx pa hwf _ _ => real_first_after_reorder idx pa hwf
+
+/-- `num_real_particles` afterwards is the number of Local tags -/
+theorem num_real_after_reorder (idx : List Nat) (pa : PA) :
+    (spatiallyOrder idx pa).nReal = countLocal (spatiallyOrderOrig idx pa).tags :=
+  nReal_align _
+
+example : spatiallyOrder [1, 0] cexPA =
+    { props := [⟨"tag", 1, [0, 2]⟩, ⟨"A", 2, [10, 11, 20, 21]⟩], nReal := 1 } := by decide
+
+example : (spatiallyOrder [2, 0, 1]
+    { props := [⟨"tag", 1, [0, 0, 2]⟩, ⟨"A", 2, [1, 2, 3, 4, 5, 6]⟩], nReal := 2 }).realFirst = true := by
+  decide
+
+/-! ## repeated re-ordering -/
+
+/-- any history of re-orderings of one array (each by some permutation of its
+slots, e.g. the ordered indices of any of the classes above after any motion
+of the particles) keeps the multiset of whole particles, the shape of the
+array, the particle count, and leaves the real particles first. -/
+theorem repeated_reordering (idxs : List (List Nat)) (pa : PA) (hwf : pa.wf = true)
+    (h : ∀ idx ∈ idxs, idx ~ range pa.n) (h0 : idxs = [] → pa.realFirst = true) :
+    (reorderHistory idxs pa).particles ~ pa.particles ∧ (reorderHistory idxs pa).wf = true ∧
+    (reorderHistory idxs pa).n = pa.n ∧ (reorderHistory idxs pa).realFirst = true :=
+  reorderHistory_spec idxs pa hwf h h0
+
+example : (reorderHistory [[1, 0, 2], [2, 1, 0]]
+    { props := [⟨"tag", 1, [0, 0, 2]⟩, ⟨"A", 2, [1, 2, 3, 4, 5, 6]⟩], nReal := 2 }) =
+    { props := [⟨"tag", 1, [0, 0, 2]⟩, ⟨"A", 2, [1, 2, 3, 4, 5, 6]⟩], nReal := 2 } := by decide
+
+/-! ## neighbour queries after the following update
+
+`reorder_then_update_exact` is not a theorem of this file: after the gather
+the array is just another particle array (same multiset of particles, real
+ones first), and exactness of the search on *every* array is C01's theorem.
+Here it is an oracle test on the real code (brute force, every run). -/
+
+end PysphVerif.C17
